@@ -634,3 +634,139 @@ Proof.
   rewrite list_eqb_leq in H3. eapply leq_Forall2; [|exact H3]. apply Forall_forall. intros a _ b.
   rewrite andb_true_iff. intros [Ha Hb]. apply Nat.eqb_eq in Ha. split; auto. now apply sop_rel_sound_both.
 Qed.
+
+(* ------------------------------------------------------------------ the hypotheses are satisfiable, non-trivially *)
+Module ExH.
+  (* a function body: DFG root, Input, Output, the opaque operation Ex.c (its definition is in Ex.reg) *)
+  Definition body : hugrT :=
+    {| h_nodes := [Some {| n_op := HOther 20 (Some 1) (Some 1) []; n_parent := None; n_children := [1; 2; 3]; n_md := 0%N;
+                           n_nin := 0; n_nout := 0 |};
+                   Some {| n_op := HOther 21 (Some 0) (Some 1) [Some Ex.tT]; n_parent := Some 0; n_children := []; n_md := 0%N;
+                           n_nin := 0; n_nout := 1 |};
+                   Some {| n_op := HOther 22 (Some 1) (Some 0) []; n_parent := Some 0; n_children := []; n_md := 0%N;
+                           n_nin := 1; n_nout := 0 |};
+                   Some {| n_op := HOp (OCustom Ex.c); n_parent := Some 0; n_children := []; n_md := 5%N;
+                           n_nin := 1; n_nout := 1 |}];
+       h_root := 0;
+       h_links := [((1, APort 0), (3, APort 0)); ((3, APort 0), (2, APort 0)); ((1, AOrder), (3, AOrder))] |}.
+  (* the HUGR: a root, a hole, the opaque operation, and a constant holding the function value inside a sum value *)
+  Definition h : hugrT :=
+    {| h_nodes := [Some {| n_op := HOther 10 None None []; n_parent := None; n_children := [2; 3]; n_md := 0%N;
+                           n_nin := 0; n_nout := 0 |};
+                   None;
+                   Some {| n_op := HOp (OCustom Ex.c); n_parent := Some 0; n_children := []; n_md := 7%N;
+                           n_nin := 1; n_nout := 2 |};
+                   Some {| n_op := HConst (VSum 30 [VLeaf 31; VFunc body]); n_parent := Some 0; n_children := [];
+                           n_md := 0%N; n_nin := 0; n_nout := 1 |}];
+       h_root := 0;
+       h_links := [((2, APort 0), (2, APort 0)); ((2, AOrder), (3, AOrder))] |}.
+End ExH.
+Example exh_nontrivial :
+  RegWF Ex.reg /\ consistent_hugr Ex.reg ExH.h = true /\ hugr_all (untouchable_op Ex.reg) ExH.h = false /\
+  get_node ExH.h 1 = None /\
+  hugr_eqb (resolve_extensions Ex.reg ExH.h) ExH.h = false /\ rhugr_b Ex.reg ExH.h (resolve_extensions Ex.reg ExH.h) = true /\
+  (exists s s', hugr_doc ExH.h = Some s /\ hugr_doc (resolve_extensions Ex.reg ExH.h) = Some s' /\
+                doc_eqb s s' = false /\ same_doc_b Ex.reg s s' = true) /\
+  (exists t, port_type ExH.h 2 0 = Some t /\ port_type (resolve_extensions Ex.reg ExH.h) 2 0 = Some (resolve_ty Ex.reg t) /\
+             ty_eqb (resolve_ty Ex.reg t) t = false) /\
+  port_type ExH.h 2 1 = None.
+Proof.
+  split; [exact ex_regwf|]. repeat split; try (vm_compute; reflexivity).
+  - do 2 eexists. repeat split; vm_compute; reflexivity.
+  - eexists. repeat split; vm_compute; reflexivity.
+Qed.
+
+(* ------------------------------------------------------------------ property-level statements *)
+Lemma hugr_loop_is_map_thm : forall reg h,
+  resolve_extensions reg h = map_hugr (resolve_hop reg) h /\
+  (forall i, get_node (resolve_extensions reg h) i = option_map (map_node (resolve_hop reg)) (get_node h i)).
+Proof. intros reg h. split; [apply resolve_extensions_map|intros i; apply resolve_node_at]. Qed.
+
+Lemma hugr_frame_thm : forall reg h,
+  same_frame h (resolve_extensions reg h) /\ live (resolve_extensions reg h) = live h /\
+  length (h_nodes (resolve_extensions reg h)) = length (h_nodes h).
+Proof.
+  intros reg h. split; [apply resolve_frame|]. rewrite resolve_extensions_map. split; [apply live_map|].
+  cbn. apply map_length.
+Qed.
+
+Lemma hugr_resolve_pointwise_thm : forall reg, RegWF reg ->
+  (forall h, RHugr reg h (resolve_extensions reg h)) /\
+  (forall o, RHop reg o (resolve_hop reg o)) /\ (forall v, RVal reg v (resolve_val reg v)).
+Proof.
+  intros reg Hwf. split; [intros h; now apply resolve_hugr_rel|]. now apply resolve_hop_rel_both.
+Qed.
+
+Lemma hugr_only_defined_ops_change_thm : forall reg,
+  (forall o, hop_all (untouchable_op reg) o = true -> resolve_hop reg o = o) /\
+  (RegWF reg -> forall o, resolve_hop reg o = o -> hop_all (untouchable_op reg) o = true) /\
+  (forall h, hugr_all (untouchable_op reg) h = true -> resolve_extensions reg h = h) /\
+  (forall h i n, get_node h i = Some n -> hop_all (untouchable_op reg) (n_op n) = true ->
+                 get_node (resolve_extensions reg h) i = Some n).
+Proof.
+  intros reg. split; [apply resolve_untouchable_both|]. split; [intros Hwf; now apply resolve_fixed_both|]. split.
+  - intros h H. rewrite resolve_extensions_map. apply map_hugr_id. unfold hugr_all in H. rewrite forallb_Forall in H.
+    eapply Forall_impl; [|exact H]. intros [n|]; cbn; [|trivial]. apply resolve_untouchable_both.
+  - intros h i n E H. rewrite resolve_node_at, E. cbn. f_equal. apply map_node_id. now apply resolve_untouchable_both.
+Qed.
+
+Lemma hugr_idempotent_thm : forall reg,
+  (forall h, resolve_extensions reg (resolve_extensions reg h) = resolve_extensions reg h) /\
+  (forall o, resolve_hop reg (resolve_hop reg o) = resolve_hop reg o).
+Proof. intros reg. split; [apply resolve_extensions_idem|apply resolve_hop_idem_both]. Qed.
+
+Lemma hugr_document_thm : forall reg, RegWF reg ->
+  (forall h s, consistent_hugr reg h = true -> hugr_doc h = Some s ->
+     exists s', hugr_doc (resolve_extensions reg h) = Some s' /\ SameDoc reg s s') /\
+  (forall b, ser_val (VFunc b) = match to_serial ser_hop hop_ndp md_is_nil b with
+                                 | Some d => option_map SVFunc (seq_serial d)
+                                 | None => None
+                                 end).
+Proof. intros reg Hwf. split; [intros h s; now apply resolve_doc|apply ser_val_func_eq]. Qed.
+
+Lemma document_frame_through_enc_thm :
+  forall (A S M : Type) (enc : A -> S) (ndp : A -> dir -> option nat) (nil : M -> bool) (f : A -> A)
+         (R : S -> S -> Prop) (h : hugr A M),
+  (forall n, In (Some n) (h_nodes h) ->
+     (forall d, ndp (f (n_op n)) d = ndp (n_op n) d) /\ R (enc (n_op n)) (enc (f (n_op n)))) ->
+  match to_serial enc ndp nil h, to_serial enc ndp nil (map_hugr f h) with
+  | Some s, Some s' =>
+      s_edges s' = s_edges s /\ s_meta s' = s_meta s /\
+      Forall2 (fun a b => s_parent b = s_parent a /\ R (s_op a) (s_op b)) (s_nodes s) (s_nodes s')
+  | None, None => True
+  | _, _ => False
+  end.
+Proof.
+  intros A S M enc ndp nil f R h H.
+  assert (E : orel (serial_rel R) (to_serial enc ndp nil h) (to_serial enc ndp nil (map_hugr f h))).
+  { apply to_serial_map. apply Forall_forall. intros [n|] Hin; [|trivial]. now apply H. }
+  destruct (to_serial enc ndp nil h), (to_serial enc ndp nil (map_hugr f h)); exact E.
+Qed.
+
+Lemma hugr_port_types_thm : forall reg h i k,
+  (port_type (resolve_extensions reg h) i k = port_type h i k \/
+   exists n c, get_node h i = Some n /\ n_op n = HOp (OCustom c) /\ lookup_op reg (c_ext c) (c_name c) <> None /\
+               port_type (resolve_extensions reg h) i k = option_map (resolve_ty reg) (port_type h i k)) /\
+  (RegWF reg -> port_type_rel reg (port_type h i k) (port_type (resolve_extensions reg h) i k)) /\
+  (forall n, get_node h i = Some n -> hop_all (untouchable_op reg) (n_op n) = true ->
+             port_type (resolve_extensions reg h) i k = port_type h i k) /\
+  (RegWF reg -> consistent_hugr reg h = true ->
+     option_map tbound (port_type (resolve_extensions reg h) i k) = option_map tbound (port_type h i k) /\
+     option_map ser_ty (port_type (resolve_extensions reg h) i k) = option_map ser_ty (port_type h i k)) /\
+  (forall d n, get_node h i = Some n -> hop_ndp (resolve_hop reg (n_op n)) d = hop_ndp (n_op n) d).
+Proof.
+  intros reg h i k. split; [apply port_type_resolve|]. split; [intros; now apply port_type_related|].
+  split; [intros n; apply port_type_untouched|]. split; [intros; now apply port_type_facts|].
+  intros d n _. apply resolve_hop_ndp.
+Qed.
+
+Lemma hugr_monitor_sound_thm : forall reg,
+  (forall h h', rhugr_b reg h h' = true -> RHugr reg h h') /\
+  (forall d d', same_doc_b reg d d' = true -> SameDoc reg d d') /\
+  (forall a b, port_type_rel_b reg a b = true -> port_type_rel reg a b).
+Proof.
+  intros reg. split; [apply rhugr_b_sound|]. split; [apply same_doc_b_sound|].
+  intros a b. unfold port_type_rel_b, port_type_rel. rewrite orb_true_iff. intros [H|H].
+  - left. now apply (option_eqb_eq _ ty_eqb_eq).
+  - destruct a as [t|], b as [t'|]; try discriminate. right. exists t, t'. repeat split. now apply rty_b_sound.
+Qed.
